@@ -12,7 +12,12 @@ func InitGenesis(ctx sdk.Context, k keeper.Keeper, genState types.GenesisState, 
 	k.SetParams(ctx, genState.Params)
 	states := genState.States
 	for _, av := range states {
-		k.SetState(ctx, *av)
+		state := *av
+		if state.Burn && state.Account == nil {
+			// ExportGenesis drops the burn state's account; the keeper expects the empty account it creates in memory
+			state.Account = &types.Account{}
+		}
+		k.SetState(ctx, state)
 	}
 }
 
